@@ -33,7 +33,7 @@ def gen(rng, tier):
         sc['value'] = rng.choice(['int', 'none', 'big', 'big'])
         sc['size'] = rng.choice([1000, 70000, 300000])
     elif ending == 'raise':
-        sc['exc'] = rng.choice(['ExcA', 'ExcB', 'ExcC', 'KeyError', 'ZeroDivisionError', 'ExcD', 'UnicodeDecodeError'])
+        sc['exc'] = rng.choice(['ExcA', 'ExcB', 'ExcC', 'KeyError', 'ZeroDivisionError', 'ExcD', 'UnicodeDecodeError', 'TimeoutError', 'Empty', 'EOFError'])
     else:
         sc['code'] = rng.choice(['none', 0, 1, 3, 'msg'])
     if kind == 'process' and ending != 'exit' and rng.random() < 0.12:
